@@ -32,9 +32,15 @@ Theorem c20_defaults_after_attrs : forall base attrs, Utf8.valid base = true -> 
   get_url_params ("/"%byte :: penc base) (Some (join ","%byte attrs)) =
   UOk {| p_base := base; p_attrs := attrs; p_scope := Subtree; p_filter := s2b "(objectClass=*)"%string; p_exts := [] |}.
 Proof. exact UrlParams.c20_defaults_after_attrs. Qed.
+(* repair F35: a scope word is recognised in any spelling of its letters *)
+Theorem c20_scope_any_case : forall base attrs w sc filt, map lc w = scope_word sc -> no_byte "?"%byte w ->
+  Utf8.valid base = true -> Utf8.valid filt = true -> filt <> [] -> attrs <> [] -> Forall attr_ok attrs ->
+  get_url_params ("/"%byte :: penc base) (Some (join ","%byte attrs ++ "?"%byte :: w ++ "?"%byte :: penc filt)) =
+  UOk {| p_base := base; p_attrs := attrs; p_scope := sc; p_filter := filt; p_exts := [] |}.
+Proof. exact UrlParams.c20_scope_any_case. Qed.
 (* the error classes: an invalid scope word, a base that does not decode to UTF-8, an unknown critical extension; an unknown non-critical one is ignored *)
 Theorem c20_bad_scope : forall base attrs w rest, Utf8.valid base = true -> attrs <> [] -> Forall attr_ok attrs ->
-  w <> [] -> no_byte "?"%byte w -> beqs w (s2b "base"%string) = false -> beqs w (s2b "one"%string) = false -> beqs w (s2b "sub"%string) = false ->
+  w <> [] -> no_byte "?"%byte w -> beqs (map lc w) (s2b "base"%string) = false -> beqs (map lc w) (s2b "one"%string) = false -> beqs (map lc w) (s2b "sub"%string) = false ->
   get_url_params ("/"%byte :: penc base) (Some (join ","%byte attrs ++ "?"%byte :: w ++ "?"%byte :: rest)) = UErr EScope.
 Proof. exact UrlParams.c20_bad_scope. Qed.
 Theorem c20_non_utf8_base : forall path query,
@@ -58,3 +64,4 @@ Print Assumptions c20_bad_scope.
 Print Assumptions c20_non_utf8_base.
 Print Assumptions c20_unknown_critical.
 Print Assumptions c20_unknown_noncritical_ignored.
+Print Assumptions c20_scope_any_case.
